@@ -4,6 +4,7 @@ import (
 	"fmt"
 	"go/types"
 	"regexp"
+	"strconv"
 	"strings"
 
 	"ddcheck/core"
@@ -290,6 +291,8 @@ func C02(p *core.Program, r *core.Report) {
 	checkVisibilityRules(p, r, "O7")
 	// ---- O9: words come from text nodes only
 	checkTextViewsAreInnerText(p, r, "O9")
+	// ---- O10: no word is made of two
+	checkNoTrimmedConcatenation(p, r, "O10")
 	// ---- O8: nothing is emitted twice or from outside the gate: whole subtrees are copied into
 	// the output only through the per-node gate of GetOutputNodes (whose decision list conforms),
 	// the reviewed deep copies are Image/Figure elements, and what the image extractor stores there
@@ -437,4 +440,39 @@ func checkTextViewsAreInnerText(p *core.Program, r *core.Report, rule string) {
 	}
 	r.Floor(rule, 4)
 	_ = n
+}
+
+// checkNoTrimmedConcatenation (O10 of C02, shared with C09-W5): Document.GenerateOutput puts the
+// renderings of the elements one after the other; in the text view it writes a newline after
+// each, in the HTML view nothing. A rendering that has the white space at its ends cut off (what
+// go-shiori/dom.InnerHTML does, and what is recognised by shape in any function written like it)
+// therefore glues its last word to the first word of the next rendering inside the same pair of
+// tags ("aaa <button>x</button> bbb" in a list item came out as "aaabbb"). Unless the HTML view
+// writes a separator, no HTML rendering may come from a trimming serializer.
+func checkNoTrimmedConcatenation(p *core.Program, r *core.Report, rule string) {
+	sep := false
+	if dg := mustInl(p, r, rule, "(*"+webdocPkg+".Document).GenerateOutput"); dg != nil {
+		c := core.NewCanon(p)
+		cutT, _ := core.CutAtoms(p, dg, reTextOnlyParam, true) // the HTML view: textOnly == true edges removed
+		for _, call := range core.Calls(dg, func(ci ssa.CallInstruction) bool { return isSinkWrite(ci) }) {
+			v, _ := sinkWritten(call, c)
+			if !strings.HasPrefix(v, "iface.GenerateOutput(") && core.InstrReachable(dg, cutT, call.(ssa.Instruction)) {
+				if s, err := strconv.Unquote(v); err == nil && strings.TrimSpace(s) == "" && s != "" {
+					sep = true
+				}
+			}
+		}
+	}
+	n := 0
+	for _, fn := range outputFuncs(p) {
+		for i, o := range outputReturns(p, fn) {
+			if o.textOnly == 1 || o.serializer != "dom.InnerHTML" {
+				continue
+			}
+			n++
+			r.Add(rule, fmt.Sprintf("%s.GenerateOutput HTML rendering #%d keeps the white space at its ends (or the document separates renderings)", o.typ, i+1), p.Pos(o.ret.Pos()),
+				sep || !o.trimmed, fmt.Sprintf("inner rendering of %s; trimmed: %v; separator between renderings in the HTML view: %v", shortVal(core.NewCanon(p).Of(o.root)), o.trimmed, sep))
+		}
+	}
+	r.Add(rule, "inner renderings examined", "", n >= 1, fmt.Sprintf("%d", n))
 }
